@@ -50,14 +50,14 @@ CHECKS["C09"] = dict(
 )
 CHECKS["C16"] = dict(
     cat="exploration", ref="DESIGN.md §3 C16",
-    technique="exhaustive enumeration of all assignments of 5 pooled contents to 5 (quick) / 6 (thorough) files in two directories x 4 structural variants, against a direct byte-wise partition",
+    technique="exhaustive enumeration of all assignments of 5 pooled contents to 5 (quick) / 6 (thorough) files in two directories x 6 structural variants (excluded twin, symlinked twin, link listed before its target, non-source twin, overlapping directories), all files with one mtime, against a direct byte-wise partition",
     text="For every assignment report.find_duplicates (as a set of sets) and the printed duplicates report must equal the classes of size >= 2 of the byte-wise partition of the member non-link files; a watchdog turns non-termination into a violation.",
     note="sha512 pre-filter not subverted; order of groups / of paths in a group is C14's business.",
 )
 
 CHECKS["C11"] = dict(
     cat="exploration", ref="DESIGN.md §3 C11",
-    technique="exhaustive enumeration of argument vectors (all sequences of <=3 argument groups over 55 groups: the four recognised options in both spellings with hazardous values, and a catalogue of unmodelled real compiler flags; 4-group vectors over a sub-alphabet) against a reference option extractor",
+    technique="exhaustive enumeration of argument vectors (all sequences of <=3 argument groups over 57 groups: the four recognised options in both spellings with hazardous values, and a catalogue of unmodelled real compiler flags; 4-group vectors over a sub-alphabet) and of call sequences (fresh parser per call, one ArgumentParser object, one compilation database) against a reference option extractor",
     text="Every enumerated vector is parsed by the real config.ArgumentParser for several compiler names; defines, -I directories, -isystem directories and forced includes must be exactly those given, in command-line order, with no exception, and the shell-quoted command form must split back to the same argv.",
     note="Reference extractor implements gcc's Joined|Separate rule; relative order between -I and -isystem is C04's; one recorded finding (attached -isystemDIR / -includeFILE).",
 )
@@ -71,7 +71,7 @@ CHECKS["C13"] = dict(
 CHECKS["C12"] = dict(
     cat="model_checking", ref="DESIGN.md §3 C12",
     technique="explicit-state BFS over parse_args call histories on one loaded configuration (state = deep snapshot of the process-wide compiler table, invariant = same answer as on a fresh configuration), plus exhaustive enumeration of alias graphs, rule subsets x command lines against reference semantics, and pinned built-in flag combinations",
-    text="All 216 alias graphs, all subsets of a 6-rule pool x override x implicit-option sets x all command lines of <=2/3 argument groups, every documented flag combination of the four built-in definition files (pinned expectations), the options-appended identity, and every call history of depth <=3/4 are executed on the real config module.",
+    text="All 216 alias graphs, all subsets of a 6-rule pool (+ a second pass-selecting rule) x override x implicit-option sets x all command lines of <=2/3 argument groups, every documented flag combination of the four built-in definition files (pinned expectations), the options-appended identity, and every call history of depth <=3/4 are executed on the real config module.",
     note="Built-in expectations are pinned in cbimc/props/c12.py; per-pass defines / paths compared as multisets.",
 )
 
@@ -90,8 +90,8 @@ CHECKS["C08"] = dict(
 )
 CHECKS["C10"] = dict(
     cat="exploration", ref="DESIGN.md §3 C10",
-    technique="exhaustive enumeration of all subsets of the files of two code-base variants x up to 4 git-confirmed pattern renderings, each analysed with and without the exclusion by the real finder.find; -x vs analysis-file equivalence through the three front ends",
-    text="For every subset of files and every rendering of an exclude list matching exactly it, the attribution of all remaining files must be unchanged and the matched files' lines must vanish from every platform set; headers outside the root contribute nothing but their macros keep their effect; -x on the command line equals exclude= in the analysis file.",
+    technique="exhaustive enumeration of all subsets of the files of four code-base variants (macro header inside / outside the root, included in quote / angle form) x up to 4 git-confirmed pattern renderings, each analysed with and without the exclusion by the real finder.find; -x vs analysis-file equivalence through the three front ends",
+    text="For every subset of files and every rendering of an exclude list matching exactly it, the attribution of all remaining files must be unchanged and the matched files' lines must vanish from every platform set; headers outside the root contribute nothing but their macros keep their effect; -x on the command line equals exclude= in the analysis file; a header outside the root behaves like the same header inside and excluded; one parser state asked about several code bases answers each correctly.",
     note="Pattern renderings are confirmed with git check-ignore; differential oracle.",
 )
 CHECKS["C15"] = dict(
@@ -105,21 +105,21 @@ CHECKS["C14"] = dict(
     cat="model_checking", ref="DESIGN.md §3 C14",
     technique="deviation-bounded exhaustive search over iteration orders: the explorer owns every unordered-iteration choice point (directory listings via Path._scandir, the `set` constructor of codebasin.finder/report/config, platform-table order), default = sorted order, all executions with <=1 (quick) / <=2 (thorough) deviating choice points run to completion on the real front ends; a schedule is replayed twice before a failure is believed",
     text="For each input every schedule within the deviation bound is executed through codebasin (summary + duplicates), cbi-tree, cbi-cov and the in-process analysis; platform-set table, metrics, distance matrix, per-line attribution, coverage export, duplicate groups and tree must be identical in content and in serialisation order to the default schedule.",
-    note="Choice points keyed by (site, elements); sets built by displays/comprehensions would escape the hook (the PYTHONHASHSEED subprocess supplement would notice); order of duplicate groups is not compared; floats compared to 1e-12.",
+    note="Choice points keyed by (site, elements); sets built by displays/comprehensions would escape the hook (the PYTHONHASHSEED subprocess supplement would notice); order of duplicate groups and of the paths inside a group is compared; floats compared to 1e-12.",
 )
 
 CHECKS["C04"] = dict(
     cat="model_checking", ref="DESIGN.md §3 C04",
-    technique="explicit-state BFS over Platform.find_include_file call histories (state = the include memo and once-list, invariant = stateless reference resolver) plus bounded-exhaustive enumeration of multi-directory trees (15 header placements x 4 guard styles x include sequences x 13 ordered -I/-isystem lists x -include) analysed through config.load_database + finder.find against a reference preprocessor, cross-checked with gcc -E on the materialised trees",
+    technique="explicit-state BFS over Platform.find_include_file call histories (state = the include memo and once-list, invariant = stateless reference resolver) plus bounded-exhaustive enumeration of multi-directory trees (15 header placements x 4 guard styles x include sequences x 13 ordered -I/-isystem lists x -include; for two-directory lists a companion platform analyses the same TU first with the list reversed) analysed through config.load_database + finder.find against a reference preprocessor, cross-checked with gcc -E on the materialised trees",
     text="Every enumerated tree / command line is analysed by the real code and the per-line attribution of every header copy and of the translation unit must equal the reference preprocessor's (includer's directory first for quote includes, all -I before all -isystem, first match wins, guard / #pragma once bodies once per TU, forced include first, macros visible afterwards); every resolver call history must answer like the stateless resolver.",
     note="Reference ref/cpp.py validated against gcc -E -P (emitted code lines); missing headers excluded (C18); same directory as -I and -isystem, -iquote, #include_next outside the alphabet.",
 )
 
 CHECKS["C18"] = dict(
     cat="model_checking", ref="DESIGN.md §3 C18",
-    technique="exhaustive enumeration of all subsets of <=3/4 of 13 fault sites on a two-platform multi-TU code base (analysed in-process and through the codebasin CLI), plus explicit-state exploration of include-directive sequences on one Platform (state = its include memo); oracle = event log of the reference preprocessor",
+    technique="exhaustive enumeration of all subsets of <=3/4 of 15 fault sites on a two-platform multi-TU code base (analysed in-process and through the codebasin CLI), plus explicit-state exploration of include-directive sequences on one Platform (state = its include memo); oracle = event log of the reference preprocessor",
     text="For every fault combination the set of (category, file, line, name, quote/angle) warning records captured from the codebasin logger must equal the model's events, each at least once and at most once per reach event, fully honoured input must produce none, and the three totals printed by codebasin must equal the WARNING records in cbi.log; no include sequence may let the memo suppress a later warning.",
-    note="Multiplicity is bounded, not fixed; wording beyond the named fields is not compared.",
+    note="Multiplicity of source-level events is bounded (1..reach events), of database-level events (missing file, unknown compiler, unknown flag) exact; wording beyond the named fields is not compared.",
 )
 
 CHECKS["C17"] = dict(
